@@ -7,7 +7,7 @@ that is not in the table is answered with `fail 99`, shown as `missing`, which n
 implementation did — so a framing difference cannot hide behind a shared "error".
 
   c10.trunc <layer> <streamhex> <table>        verdicts for every cut k = 0 .. len (k = len: intact)
-  c10.subst <layer> <streamhex> <pos> <table>  verdicts for every value v = 0 .. 255 written at pos
+  c10.subst <layer> <streamhex> <pos> <vals> <table>  verdicts for every value v of vals (v.v.v) written at pos
 
   layer  = bgzf | bam
   table  = "-" or entries "tag:start:len:o:used:payloadhex" / "tag:start:len:f:code" joined by ","
@@ -95,12 +95,13 @@ def handle (cmd : String) (args : List String) : Option String :=
     let tbl ← parseTable tb
     let c := codecFor tbl none s
     some (";".intercalate ((List.range (s.length + 1)).map fun k => verdict layer c (s.take k)))
-  | "c10.subst", [layer, sh, pos, tb] => do
+  | "c10.subst", [layer, sh, pos, vals, tb] => do
     let s := toBytes (← parseHex sh)
     let p ← parseNat pos
+    let vs ← (vals.splitOn ".").mapM parseNat
     let tbl ← parseTable tb
     if p ≥ s.length then none
-    some (";".intercalate ((List.range 256).map fun v =>
+    some (";".intercalate (vs.map fun v =>
       let m := s.set p (UInt8.ofNat v)
       verdict layer (codecFor tbl (some v) m) m))
   | "c10.crc32", [sh] => do some (toString (crc32 (toBytes (← parseHex sh))))
